@@ -495,6 +495,10 @@ func keywordComponents() map[string]bool {
 func oracleC14(c *oracleCfg) *report {
 	r := newReport("C14", "random members of the benign grammar (words not a component of any key, unsigned integers, single spaces; e-mail, decimal and sentence shapes) and all 1-2 letter words; IsSQLi must be (false,\"\"); non-trivial = at least two words")
 	enumC14(c, func(fam, s string, nt bool) {
+		// priming: attacks that share a long prefix / suffix with the benign input are asked first, so
+		// that a verdict which depends on earlier calls (a cache keyed on part of the input) shows up
+		li.IsSQLi(s + " union select 1,2 from t --")
+		li.IsSQLi("1 union select " + s)
 		ok, fp, st := li.VerifIsSQLi(s)
 		if st != "" || ok || fp != "" {
 			r.fail("benign-reported-"+fam, s, fmt.Sprintf("(%v,%q) %s", ok, fp, st))
